@@ -627,9 +627,116 @@ pub fn run(ctx: &Ctx) {
             },
         );
     });
+    if ctx.chunk.map_or(true, |(k, _)| k == 0) {
+        // the WebSocket connection must not inherit the application's connection timeout
+        std::thread::scope(|sc| {
+            for (i, inside) in [false, true].into_iter().enumerate() {
+                sc.spawn(move || {
+                    ctx.case(hash_of(&("quiet-client", inside)), true, &["quiet-client-longer-than-the-connection-timeout"]);
+                    for f in quiet_client(inside, &format!("127.0.11.{}", 120 + i)) {
+                        if f.sig.starts_with("harness-") {
+                            ctx.inconclusive(&format!("{}: {}", f.sig, f.detail));
+                        } else if !ctx.tolerate(&f) {
+                            ctx.violation(f, "quiet", json!({"inside_frame": inside}));
+                        }
+                    }
+                });
+            }
+        });
+        ctx.sample("quiet-client-longer-than-the-connection-timeout", || json!({"scenario": "App with a 500 ms connection timeout and an echoing WebSocket route; the client pauses 900 ms before / inside its frame"}));
+    }
 }
 
-pub fn replay(_ctx: &Ctx, _kind: &str, case: &J) -> Vec<Fail> {
+/// An application with a connection timeout (which is about waiting for HTTP requests) and an echoing WebSocket route:
+/// a client that stays quiet for longer than that timeout — between two frames, or in the middle of a frame — must still
+/// have its message delivered and echoed; the WebSocket connection must not inherit the HTTP timeout.
+pub fn quiet_client(inside_frame: bool, ip: &str) -> Vec<Fail> {
+    const TIMEOUT_MS: u64 = 500;
+    let app: App<()> = App::new_with_config(2, ())
+        .with_connection_timeout(Some(Duration::from_millis(TIMEOUT_MS)))
+        .with_websocket_route(
+            "/ws",
+            websocket_handler(|mut stream: WebsocketStream, _st: Arc<()>| {
+                while let Ok(m) = stream.recv() {
+                    if stream.send(Message::new(m.bytes().to_vec())).is_err() {
+                        break;
+                    }
+                }
+            }),
+        );
+    let running = match start_app(app, ip) {
+        Ok(r) => r,
+        Err(e) => return vec![Fail::new("harness-app", e)],
+    };
+    let mut fails = Vec::new();
+    let mut sock = match connect_retry(running.addr, Duration::from_secs(5)) {
+        Ok(s) => s,
+        Err(e) => return vec![Fail::new("harness-connect", e.to_string())],
+    };
+    let _ = sock.set_nodelay(true);
+    let _ = sock.write_all(b"GET /ws HTTP/1.1\r\nHost: c11\r\nUpgrade: websocket\r\nConnection: Upgrade\r\nSec-WebSocket-Key: dGhlIHNhbXBsZSBub25jZQ==\r\nSec-WebSocket-Version: 13\r\n\r\n");
+    let _ = sock.set_read_timeout(Some(Duration::from_secs(5)));
+    let mut buf = Vec::new();
+    let mut tmp = [0u8; 4096];
+    let head = loop {
+        match parse_response(&buf, false) {
+            RespParse::Complete(r) if r.status == 101 => break r.consumed,
+            RespParse::Complete(r) => return vec![Fail::new("harness-handshake", format!("status {}", r.status))],
+            RespParse::Invalid(e) => return vec![Fail::new("harness-handshake", e)],
+            _ => {}
+        }
+        match sock.read(&mut tmp) {
+            Ok(0) | Err(_) => return vec![Fail::new("harness-handshake", "EOF during handshake".to_string())],
+            Ok(n) => buf.extend_from_slice(&tmp[..n]),
+        }
+    };
+    buf.drain(..head);
+    let payload = b"after a quiet spell".to_vec();
+    let frame = ws::encode(&RFrame { fin: true, rsv: [false; 3], opcode: 1, mask: Some([7, 1, 9, 3]), payload: payload.clone() });
+    let pause = Duration::from_millis(TIMEOUT_MS + 400);
+    if inside_frame {
+        let _ = sock.write_all(&frame[..9]);
+        std::thread::sleep(pause);
+        let _ = sock.write_all(&frame[9..]);
+    } else {
+        std::thread::sleep(pause);
+        let _ = sock.write_all(&frame);
+    }
+    // expect the echo as one unmasked text/binary frame
+    let t0 = Instant::now();
+    let got = loop {
+        match ws::decode(&buf) {
+            Decoded::Frame(f, _) => break Some(f),
+            Decoded::ReservedOpcode => break None,
+            Decoded::Truncated { .. } => {}
+        }
+        if t0.elapsed() > Duration::from_secs(5) {
+            break None;
+        }
+        match sock.read(&mut tmp) {
+            Ok(0) => break None,
+            Ok(n) => buf.extend_from_slice(&tmp[..n]),
+            Err(_) => {}
+        }
+    };
+    match got {
+        Some(f) if f.opcode != 8 && f.payload == payload => {}
+        Some(f) => fails.push(fail!(
+            "quiet-client-not-served",
+            "application with a {} ms connection timeout: a WebSocket client that stayed quiet for {:?} {} got opcode {} ({} payload bytes) instead of the echo of its message: the WebSocket connection inherited the HTTP timeout",
+            TIMEOUT_MS, pause, if inside_frame { "in the middle of a frame" } else { "before its first frame" }, f.opcode, f.payload.len()
+        )),
+        None => fails.push(fail!("quiet-client-not-served", "application with a {} ms connection timeout: a WebSocket client that stayed quiet for {:?} {} got no echo of its message", TIMEOUT_MS, pause, if inside_frame { "in the middle of a frame" } else { "before its first frame" })),
+    }
+    let _ = sock.shutdown(std::net::Shutdown::Both);
+    let _ = running.stop(Duration::from_secs(10));
+    fails
+}
+
+pub fn replay(_ctx: &Ctx, kind: &str, case: &J) -> Vec<Fail> {
+    if kind == "quiet" {
+        return quiet_client(case["inside_frame"].as_bool().unwrap_or(false), "127.0.11.99");
+    }
     match serde_json::from_value::<Case>(case.clone()) {
         Ok(c) => run_case(&c, "127.0.11.99"),
         Err(e) => vec![Fail::new("harness", format!("bad replay case: {}", e))],
